@@ -12,7 +12,7 @@ Full == IF "MC_FULL" \in DOMAIN IOEnv THEN IOEnv.MC_FULL = "1" ELSE FALSE
 
 Lays == {[ivtOff |-> 0, ils |-> 1024], [ivtOff |-> 4096, ils |-> 8192], [ivtOff |-> 1024, ils |-> 4096], [ivtOff |-> 0, ils |-> 8192]}
 \* application sizes: (ils + appLen) mod 4096 around the 4 KiB boundary, and the 16-byte boundary
-Residues == IF Full THEN {4079, 4080, 4081, 4095, 0, 1, 15, 16, 17, 2048} ELSE {4080, 4095, 0, 1, 16}
+Residues == IF Full THEN {4079, 4080, 4081, 4095, 0, 1, 15, 16, 17, 2048} ELSE {4080, 0, 1}
 AppLens == {4096 + r : r \in Residues} \cup (IF Full THEN {r : r \in Residues \ {0, 1, 15, 16, 17}} ELSE {})
 Start == <<8192, 7168>>                              \* 0x20001C00
 
@@ -110,44 +110,62 @@ Events(sh, t, m) ==
       pb == [ev |-> "ParseBack", ok |-> TRUE, self |-> ivt.self, bd |-> ivt.bd, dcd |-> ivt.dcd, csf |-> ivt.csf, entry |-> ivt.entry,
              bdStart |-> bd.start, bdLen |-> bd.len, plugin |-> 0, flags |-> FlagWord(sh.flags),
              hasDcd |-> sh.cfgKind = "dcd", hasXmcd |-> sh.cfgKind = "xmcd", hasCsf |-> ~plain, appAt |-> L.app,
-             nCmds |-> Len(cmds0), ivtEq |-> TRUE, bdEq |-> TRUE, cfgEq |-> TRUE, appEq |-> TRUE, csfEq |-> TRUE, reexpEq |-> TRUE]
+             nCmds |-> IF plain THEN 0 ELSE Len(cmds0), ivtEq |-> TRUE, bdEq |-> TRUE, cfgEq |-> TRUE, appEq |-> TRUE, csfEq |-> TRUE, reexpEq |-> TRUE]
   IN << ivt, bd >> \o cfg \o << app >> \o (IF plain THEN << >> ELSE << hdr >> \o cmds \o << endev >>)
      \o << [ev |-> "Accept"], pb >>
 
-VARIABLES sh, t, m, i, s
-vars == <<sh, t, m, i, s>>
-Evs == Events(sh, t, m)
-E == Evs[i]
+\* all abstract images of the scope, built once (constant-level definition)
+Cases == {c \in Shapes \X Tampers \X Mutants : Applicable(c[1], c[2], c[3])}
+
+VARIABLES sh, t, m, i, s, evs
+vars == <<sh, t, m, i, s, evs>>
+E == evs[i]
 inp == Inp(sh)
-Init == /\ sh \in Shapes /\ t \in Tampers /\ m \in Mutants /\ Applicable(sh, t, m) /\ i = 1 /\ s = S0
-Go(name, ok, nx) == i <= Len(Evs) /\ E.ev = name /\ ok /\ s' = nx /\ i' = i + 1 /\ UNCHANGED <<sh, t, m>>
-DoParseIvt == Go("ParseIvt", IvtOK(inp, s, E), IvtNx(inp, s, E))
-DoBootData == Go("BootData", BdOK(inp, s, E), BdNx(inp, s, E))
-DoDcd == Go("Dcd", DcdOK(inp, s, E), CfgNx(inp, s, E))
-DoXmcd == Go("Xmcd", XmcdOK(inp, s, E), CfgNx(inp, s, E))
-DoApp == Go("App", AppOK(inp, s, E), AppNx(inp, s, E))
-DoCsfHeader == Go("CsfHeader", CsfOK(inp, s, E), CsfNx(inp, s, E))
-DoInstallSrk == Go("InstallKey", SrkOK(inp, s, E), SrkNx(inp, s, E))
-DoInstallCsfk == Go("InstallKey", CsfkOK(inp, s, E), CsfkNx(inp, s, E))
-DoAuthenticateCsf == Go("Authenticate", AuthCsfOK(inp, s, E), AuthCsfNx(inp, s, E))
-DoInstallImgk == Go("InstallKey", ImgkOK(inp, s, E), ImgkNx(inp, s, E))
-DoAuthenticateData == Go("Authenticate", AuthDataOK(inp, s, E), AuthDataNx(inp, s, E))
-DoInstallSecretKey == Go("InstallKey", SecretOK(inp, s, E), SecretNx(inp, s, E))
-DoDecryptData == Go("Authenticate", DecryptOK(inp, s, E), DecryptNx(inp, s, E))
-DoOtherCmd == Go("Cmd", OtherOK(inp, s, E), OtherNx(inp, s, E))
-DoCsfEnd == Go("CsfEnd", EndOK(inp, s, E), EndNx(inp, s, E))
-DoAccept == Go("Accept", AcceptOK(inp, s), AcceptNx(inp, s))
-DoParseBack == Go("ParseBack", ParseBackOK(inp, s, E), ParseBackNx(inp, s, E))
+Init == \E c \in Cases : sh = c[1] /\ t = c[2] /\ m = c[3] /\ i = 1 /\ s = S0 /\ evs = Events(c[1], c[2], c[3])
+Has(name) == i <= Len(evs) /\ E.ev = name
+Adv == i' = i + 1 /\ UNCHANGED <<sh, t, m, evs>>
+DoParseIvt == Has("ParseIvt") /\ IvtOK(inp, s, E) /\ s' = IvtNx(inp, s, E) /\ Adv
+DoBootData == Has("BootData") /\ BdOK(inp, s, E) /\ s' = BdNx(inp, s, E) /\ Adv
+DoDcd == Has("Dcd") /\ DcdOK(inp, s, E) /\ s' = CfgNx(inp, s, E) /\ Adv
+DoXmcd == Has("Xmcd") /\ XmcdOK(inp, s, E) /\ s' = CfgNx(inp, s, E) /\ Adv
+DoApp == Has("App") /\ AppOK(inp, s, E) /\ s' = AppNx(inp, s, E) /\ Adv
+DoCsfHeader == Has("CsfHeader") /\ CsfOK(inp, s, E) /\ s' = CsfNx(inp, s, E) /\ Adv
+DoInstallSrk == Has("InstallKey") /\ SrkOK(inp, s, E) /\ s' = SrkNx(inp, s, E) /\ Adv
+DoInstallCsfk == Has("InstallKey") /\ CsfkOK(inp, s, E) /\ s' = CsfkNx(inp, s, E) /\ Adv
+DoAuthenticateCsf == Has("Authenticate") /\ AuthCsfOK(inp, s, E) /\ s' = AuthCsfNx(inp, s, E) /\ Adv
+DoInstallImgk == Has("InstallKey") /\ ImgkOK(inp, s, E) /\ s' = ImgkNx(inp, s, E) /\ Adv
+DoAuthenticateData == Has("Authenticate") /\ AuthDataOK(inp, s, E) /\ s' = AuthDataNx(inp, s, E) /\ Adv
+DoInstallSecretKey == Has("InstallKey") /\ SecretOK(inp, s, E) /\ s' = SecretNx(inp, s, E) /\ Adv
+DoDecryptData == Has("Authenticate") /\ DecryptOK(inp, s, E) /\ s' = DecryptNx(inp, s, E) /\ Adv
+DoOtherCmd == Has("Cmd") /\ OtherOK(inp, s, E) /\ s' = OtherNx(inp, s, E) /\ Adv
+DoCsfEnd == Has("CsfEnd") /\ EndOK(inp, s, E) /\ s' = EndNx(inp, s, E) /\ Adv
+DoAccept == Has("Accept") /\ AcceptOK(inp, s) /\ s' = AcceptNx(inp, s) /\ Adv
+DoParseBack == Has("ParseBack") /\ ParseBackOK(inp, s, E) /\ s' = ParseBackNx(inp, s, E) /\ Adv
 Next == DoParseIvt \/ DoBootData \/ DoDcd \/ DoXmcd \/ DoApp \/ DoCsfHeader \/ DoInstallSrk \/ DoInstallCsfk
         \/ DoAuthenticateCsf \/ DoInstallImgk \/ DoAuthenticateData \/ DoInstallSecretKey \/ DoDecryptData \/ DoOtherCmd
         \/ DoCsfEnd \/ DoAccept \/ DoParseBack
 Spec == Init /\ [][Next]_vars
 
+\* the guard of the step that would consume the next event (no primes: usable inside invariants)
+CanStep ==
+  /\ i <= Len(evs)
+  /\ \/ E.ev = "ParseIvt" /\ IvtOK(inp, s, E)
+     \/ E.ev = "BootData" /\ BdOK(inp, s, E)
+     \/ E.ev = "Dcd" /\ DcdOK(inp, s, E)
+     \/ E.ev = "Xmcd" /\ XmcdOK(inp, s, E)
+     \/ E.ev = "App" /\ AppOK(inp, s, E)
+     \/ E.ev = "CsfHeader" /\ CsfOK(inp, s, E)
+     \/ E.ev = "InstallKey" /\ (SrkOK(inp, s, E) \/ CsfkOK(inp, s, E) \/ ImgkOK(inp, s, E) \/ SecretOK(inp, s, E))
+     \/ E.ev = "Authenticate" /\ (AuthCsfOK(inp, s, E) \/ AuthDataOK(inp, s, E) \/ DecryptOK(inp, s, E))
+     \/ E.ev = "Cmd" /\ OtherOK(inp, s, E)
+     \/ E.ev = "CsfEnd" /\ EndOK(inp, s, E)
+     \/ E.ev = "Accept" /\ AcceptOK(inp, s)
+     \/ E.ev = "ParseBack" /\ ParseBackOK(inp, s, E)
+
 (* ---- lemmas *)
-Finished == i > Len(Evs)
-Stuck == ~ENABLED Next
-UntamperedAccepted == (t = "none" /\ m = "none" /\ Stuck) => (Finished /\ s.st = "Done")
-PadDontCare == (t = "pad" /\ Stuck) => (Finished /\ s.st = "Done")
+Finished == i > Len(evs)
+UntamperedAccepted == (t = "none" /\ m = "none") => IF Finished THEN s.st = "Done" ELSE CanStep
+PadDontCare == (t = "pad") => IF Finished THEN s.st = "Done" ELSE CanStep
 TamperRejected == (t \notin {"none", "pad"}) => s.st \notin {"Accepted", "Done"}
 MutantRejected == (m # "none") => s.st \notin {"Accepted", "Done"}
 DocumentedLayoutOK == LayoutOK(inp, Layout(inp), 4096)
